@@ -5,7 +5,7 @@ import itertools
 
 from ..program import AnalysisError, walk_local, dotted
 from ..analysis import Spec, src, class_const, const_value
-from ..rules import (strip_wrappers, kw, exists_form, cond_equiv, cond_branches, substitute_locals, canon, GWF, EXC, need_func, stores_to, is_const, eval_atom, eval_cond,
+from ..rules import (ctext, strip_wrappers, kw, exists_form, cond_equiv, cond_branches, substitute_locals, canon, GWF, EXC, need_func, stores_to, is_const, eval_atom, eval_cond,
                      UNKNOWN, parent_map, raise_class)
 from . import common
 from .c07 import _explore
@@ -279,7 +279,9 @@ def branch_state_table(prog, an, rep):
         found = None
         for name in _names(f):
             for _, val in stores_to(f, name):
-                if val is not None and src(val) == text:
+                # (comprehension variables carry no meaning: canon
+                # numbers them on both sides)
+                if val is not None and canon(None, val) == ctext(None, text):
                     found = name
         names[v] = found
         rep.evaluated()
@@ -540,7 +542,7 @@ def unwanted_workflows(prog, an, rep):
                     isinstance(st.targets[0].value, ast.Name) and \
                     src(st.value) == run and \
                     canon(f, st.targets[0].slice) == \
-                    "%s['workflow_id']" % run:
+                    ctext(f, "%s['workflow_id']" % run):
                 stores.append((st, st.targets[0].value.id, run))
     rep.evaluated()
     rep.check(len(stores) == 1, R, f.qname + ': best run kept per '
